@@ -139,14 +139,15 @@ def _cast_rows(rows, sa, dt):
     return out
 
 
-def _make(be, sa, rows, mom, dt="f64"):
+def _make(be, sa, rows, mom, dt="f64", spell=None):
     if be == "object-mp":
         return [mpbackend.make(sa, r, mom, True) for r in rows]
     if be == "object-f64":
         return [mpbackend.make(sa, r, mom, False) for r in rows]
     if be == "numpy":
         return build.np_array(sa, rows, mom, dtype=DTYPES[dt])
-    f = build.ak_flat(sa, rows, mom, dtype=DTYPES[dt])
+    # momentum arrays also with the fields literally spelled px py pt pz and E/e/energy, mass/M/m (ak.zip + with_name)
+    f = build.ak_flat(sa, rows, mom, "momentum" if (mom and spell is not None) else "generic", None, spell or 0, dtype=DTYPES[dt])
     if be == "record":
         return [f[i] for i in range(len(rows))]
     return ak.unflatten(f, [len(rows) - 1, 0, 1]) if len(rows) > 1 else f
@@ -195,7 +196,8 @@ def check_case(cell, bundle, ctx):
         ctx.fail(kind, f"{cell['method']} on {variant} [{be}; {'momentum' if mom else 'generic'}]: {msg}", op=cell["method"],
                  variant=variant, backend=be)
 
-    vs = _make(be, sa, rows, mom, dt)
+    hsp = zlib.crc32(("spell" + cell["id"]).encode())
+    vs = _make(be, sa, rows, mom, dt, spell=(hsp >> 1) % 3 if (mom and hsp % 2) else None)
     groups = [(i, vs[i]) for i in range(len(rows))] if _single(be) else [(None, vs)]
 
     for gi, v in groups:
